@@ -736,7 +736,15 @@ def b_lt_scalar(P, s, a, b, c, name):
     if i is None:
         return None
     k = SCALARS[a % len(SCALARS)]
-    return dict(f=lambda t: t < k, ops=[i], klass="pass")
+    t0 = P.vals[i]
+    if c % 3 and isinstance(t0, torch.Tensor) and t0.numel() > 0 and t0.dtype.is_floating_point and t0.device.type != "meta":
+        # a threshold that IS one of the tensor's own values (q < q.max(), a percentile taken from the data): ties are decided
+        # exactly as on the dequantized values; as a Python number or as a 0-dim tensor
+        d0 = cut(lambda: deq(t0).reshape(-1)[b % t0.numel()])
+        if not isinstance(d0, Raised) and bool(torch.isfinite(d0)):
+            k = float(d0) if c % 3 == 1 else d0.detach().clone()
+    cmpop = [lambda t: t < k, lambda t: t <= k, lambda t: t > k, lambda t: t >= k, lambda t: k > t, lambda t: torch.lt(t, k)][(a // len(SCALARS)) % 6 if c % 3 else 0]
+    return dict(f=cmpop, ops=[i], klass="pass")
 
 
 def b_where(P, s, a, b, c, name):
@@ -883,7 +891,7 @@ SEMANTIC = ["clone", "detach", "neg", "relu", "frelu", "mul_scalar", "rmul_scala
 ALLOPS = INTERCEPTED + INTERCEPTED + SEMANTIC + SEMANTIC + PASSTHROUGH + INPLACE  # intercepted ops (and those acting on codes) more likely
 
 
-PAIR_OPS = ["cat", "stack", "lt", "lt_m", "gt", "eq", "where", "add", "sub", "mul_tensor", "div_tensor", "maximum", "equal", "copy_", "cosine_similarity", "is_same_size"]
+PAIR_OPS = ["cat", "stack", "lt", "lt_m", "lt_scalar", "gt", "eq", "where", "add", "sub", "mul_tensor", "div_tensor", "maximum", "equal", "copy_", "cosine_similarity", "is_same_size"]
 
 
 def pair_cases():
